@@ -152,6 +152,7 @@ class TConst(T):
 LOWER = z3.Function("LOWER", z3.StringSort(), z3.StringSort())
 STRIP = z3.Function("STRIP", z3.StringSort(), z3.StringSort())
 REPLACE_ALL = z3.Function("REPLACE_ALL", z3.StringSort(), z3.StringSort(), z3.StringSort(), z3.StringSort())
+ISSPACE_HI = z3.Function("ISSPACE_HI", z3.IntSort(), z3.BoolSort())
 ISALPHA_HI = z3.Function("ISALPHA_HI", z3.IntSort(), z3.BoolSort())
 
 
@@ -258,6 +259,11 @@ class Contract:
 
     def strip(self, t):
         return STRIP(t)
+
+    def isspace_char(self, c):
+        """str.isspace() of one character: exact on ASCII, uninterpreted above"""
+        asc = z3.Or(z3.And(c >= 9, c <= 13), z3.And(c >= 28, c <= 32))
+        return z3.If(c < 128, asc, ISSPACE_HI(c))
 
     def replace_all(self, s, a, b):
         return REPLACE_ALL(s, a, b)
